@@ -195,21 +195,23 @@ def run(ctx):
         _, n1 = rec("Lu", 176)
         ctx.check(n2 is not n1 and I.heap[n2.id].get("b_c") == I.heap[n1.id].get("b_c"), "R3",
                   "the second table has its own, equal records", "records shared or different", site)
-        t1, t2 = I.heap[n1.id].get("nsf_table"), I.heap[n2.id].get("nsf_table")
-        ctx.check(t1 is not None and t2 is not None and list(t1[0].items) == list(t2[0].items) and list(t1[1].items) == list(t2[1].items),
+        from .nworld import lookup_nodes
+        t1, t2 = lookup_nodes(I, n1), lookup_nodes(I, n2)
+        ctx.check(t1 is not None and t2 is not None and t1 == t2,
                   "R5", "the second table gets the same energy-dependent table (module data not consumed or reordered)",
                   f"first {_s(t1, 120)} second {_s(t2, 120)}", fsite(ctx, "nsf.energy_dependent_init"))
     _, n176 = rec("Lu", 176)
-    tab = I.heap[n176.id].get("nsf_table")
+    from .nworld import lookup_nodes
+    tab = lookup_nodes(I, n176)
     EF = I.global_name("nsf", "ENERGY_FACTOR")
-    ok = isinstance(tab, tuple) and len(tab) == 2 and len(tab[0]) == 3 and len(tab[1]) == 3
+    ok = tab is not None and len(tab[0]) == 3 and len(tab[1]) == 3
     ctx.check(ok, "R5", "every tabulated energy of Lu-176 is a node of its interpolation table", f"table {_s(tab, 200)}",
               fsite(ctx, "nsf.energy_dependent_init"))
     if ok:
         for k in range(3):
-            eq(ctx, "R5", f"node {k}: wavelength of the {k}-th highest energy", tab[0].items[k], sp.sqrt(EF / (1000 * E[2 - k])),
+            eq(ctx, "R5", f"node {k}: wavelength of the {k}-th highest energy", tab[0][k], sp.sqrt(EF / (1000 * E[2 - k])),
                fsite(ctx, "nsf.energy_dependent_init"))
-            eq(ctx, "R5", f"node {k}: the tabulated complex length at that energy", tab[1].items[k],
+            eq(ctx, "R5", f"node {k}: the tabulated complex length at that energy", tab[1][k],
                sp.Symbol(f"r{2 - k}", real=True) + sp.I * sp.Symbol(f"i{2 - k}", real=True), fsite(ctx, "nsf.energy_dependent_init"))
     ctx.floor("R3", 20)
 
